@@ -208,6 +208,9 @@ pub struct WorldCfg {
     /// Route changes: from the given instant (virtual ns since the virtual epoch) the path to the
     /// target is the given topology (same target address).
     pub reroutes: Vec<(u64, Topology)>,
+    /// Uneven ECMP: half of the flows (by five-tuple hash) cross this many additional routers
+    /// before they reach the target.
+    pub long_branch_extra: u8,
 }
 
 // ------------------------------------------------------------------------------------------------
@@ -710,11 +713,26 @@ impl WorldInner {
             }
         };
         let fh = |salt: u64| flow_hash(&[u64::from(wp.proto), u64::from(sport), u64::from(dport), u64::from(icmp_id), addr_u64(wp.dst), salt]);
-        let dist = topo.distance();
+        let extra = if self.cfg.long_branch_extra > 0 && fh(0xEC) & 1 == 1 { self.cfg.long_branch_extra } else { 0 };
+        let dist = topo.distance().saturating_add(extra);
         let at = wp.ttl.min(dist);
         let is_target = wp.ttl >= dist;
         let hop_idx = usize::from(at) - 1;
-        let spec: &HopSpec = if is_target { &topo.target } else { &topo.hops[hop_idx] };
+        // routers of the longer branch beyond the common path
+        let extra_hop = {
+            let k = hop_idx.saturating_sub(topo.hops.len()) as u8;
+            let addr: IpAddr = if wp.v6 { IpAddr::V6(format!("fd00:eb::{:x}", u16::from(k) + 1).parse().unwrap()) } else { IpAddr::V4(Ipv4Addr::new(10, 251, k, 1)) };
+            let mut h = HopSpec::simple(addr, topo.target.delay_ns.0);
+            h.quote = Quote::Full;
+            h
+        };
+        let spec: &HopSpec = if is_target {
+            &topo.target
+        } else if hop_idx < topo.hops.len() {
+            &topo.hops[hop_idx]
+        } else {
+            &extra_hop
+        };
 
         // in-transit modifications by the hops the datagram passes through (and by the quoting hop)
         let mut transit = wp.bytes.clone();
